@@ -73,7 +73,7 @@ theorem convertArgs_surplus_witness :
 
 /-- **T6.1 — the ways a unit can fail in execution, and what each does.**  If
 `execute` returns the error `e` then exactly one of the following holds (the cases
-exclude each other: `resolve` is `none` or `some c`; the arity matches or not;
+exclude each other: `resolveCmd` is `none` or `some c`; the arity matches or not;
 `convertArgs` fails or succeeds; the handler returns an error or a response):
 
 (a) the slot is missing (`resolve_eq_none_iff`: the node has no handler of the kind
@@ -88,9 +88,9 @@ exclude each other: `resolve` is `none` or `some c`; the arity matches or not;
     (`respond_err_iff`: in the response, or in the newline of a query). -/
 theorem execute_err_cases {σ : Type} (I : Iface σ) (call : CommandCall) (w w' : Writer) (s s' : σ)
     (e : Err) (h : execute I call w s = (s', w', .err e)) :
-    (resolve I call = none ∧ e = .std .UndefinedHeader ∧ s' = s ∧ w' = w ∧
+    (resolveCmd I call = none ∧ e = .std .UndefinedHeader ∧ s' = s ∧ w' = w ∧
         invocation I call = none) ∨
-    ∃ c, resolve I call = some c ∧
+    ∃ c, resolveCmd I call = some c ∧
       ((call.args.length ≠ c.argTys.length ∧ e = .std .UnexpectedNumberOfParameters ∧
           s' = s ∧ w' = w ∧ invocation I call = none) ∨
        (call.args.length = c.argTys.length ∧ convertArgs c.argTys call.args = .error (.inl e) ∧
@@ -113,7 +113,7 @@ the handler was invoked with exactly the converted parameters, and its response
 (plus, for a query, the newline; then a flush) was written completely. -/
 theorem execute_ok_cases {σ : Type} (I : Iface σ) (call : CommandCall) (w w' : Writer) (s s' : σ)
     (h : execute I call w s = (s', w', .ok)) :
-    ∃ c tvs resp id, resolve I call = some c ∧ call.args.length = c.argTys.length ∧
+    ∃ c tvs resp id, resolveCmd I call = some c ∧ call.args.length = c.argTys.length ∧
       convertArgs c.argTys call.args = .ok tvs ∧ invocation I call = some (id, tvs) ∧
       I.cmds[id]? = some c ∧ c.handler s tvs = (s', .ok resp) ∧
       respond call.query w resp = (w', .ok) := by
@@ -124,7 +124,7 @@ theorem execute_ok_cases {σ : Type} (I : Iface σ) (call : CommandCall) (w w' :
 /-- `execute` in closed form, from which the two case theorems are read off. -/
 theorem execute_closed_form {σ : Type} (I : Iface σ) (call : CommandCall) (w : Writer) (s : σ) :
     execute I call w s =
-      match resolve I call with
+      match resolveCmd I call with
       | none => (s, w, .err (.std .UndefinedHeader))
       | some c =>
         if call.args.length ≠ c.argTys.length then (s, w, .err (.std .UnexpectedNumberOfParameters))
